@@ -289,12 +289,12 @@ func runC18(c *Ctx) {
 	r.Rule("R18.6", "enum value syntaxes: the four branches (\"0b\" prefix, \"0x\" prefix, \"**\" power, decimal) parse with bases 2 / 16 / 10,10 / 10 into 64 bits, every parse error is returned, and the prefix is stripped before parsing", 4)
 	if pd := c.Fn("pkg/conversion", "processDefinition"); pd != nil {
 		type br struct {
-			cond string
-			base []int64
+			cond  string
+			base  []int64
 			strip bool
 		}
 		want := []br{
-			{"strings.HasPrefix(", []int64{2}, true}, // 0b
+			{"strings.HasPrefix(", []int64{2}, true},  // 0b
 			{"strings.HasPrefix(", []int64{16}, true}, // 0x
 			{"strings.Contains(", []int64{10, 10}, false},
 			{"", []int64{10}, false},
